@@ -384,6 +384,33 @@ def noise_shard(arg):
     return st
 
 
+def long_run_shard(arg):
+    """Thousands of directive lines (or blank lines) in a row, as cpp writes them
+    for headers whose contents are guarded out, then tokens: the lexer finishes
+    and the tokens carry the positions the last directive establishes."""
+    form, n = arg
+    st = Stats()
+    lines = []
+    for i in range(n):
+        lines.append(form % (i + 1) if "%d" in form else form)
+    text = "\n".join(lines) + "\nint x ;\n"
+    try:
+        toks, errs, calls, lx, finished = lex_all(text)
+    except RecursionError:
+        toks, errs, finished = [], [("RecursionError", 0, 0, 0)], False
+    st.evaluations += 1
+    case = ("longrun", form, n)
+    names = [(t[0], t[1]) for t in toks if t[0] not in ("PPPRAGMA", "PPPRAGMASTR")]
+    try:
+        lex_all("int y ;")  # (a RecursionError above would have escaped as a harness error: catch it as a result)
+    except RecursionError:
+        pass
+    if not finished or errs or names != [("INT", "int"), ("ID", "x"), ("SEMI", ";")]:
+        st.failures.append(dict(subcheck="sequence", case=case, text=(form % 1 if "%d" in form else form) + " x %d + 'int x ;'" % n, detail="after %d lines of %r the lexer returned %r (errors %r, finished=%s)" % (n, form, names[:5], errs[:2], finished), sig="long-run"))
+    st.nontrivial += 1
+    return st
+
+
 def run(ctx):
     ctx.map(pair_shard, list(range(len(VOCAB))), chunksize=4)
     ctx.map(directive_shard, [0])
@@ -391,11 +418,18 @@ def run(ctx):
     ctx.map(progress_shard, [(n, f) for n in range(1, nmax + 1) for f in ALPHA], chunksize=1)
     ctx.map(seq_shard, [(s, ctx.pick(1500, 30000)) for s in ctx.shard_seeds(16)])
     ctx.map(noise_shard, [(s, ctx.pick(1000, 20000)) for s in ctx.shard_seeds(16, 5)])
+    forms = ["# %d", "#line %d", '# %d "g.h" 1 3', "#pragma once", "#pragma", "", "   ", '#line %d "d/e.c"']
+    ctx.map(long_run_shard, [(f, n) for f in forms for n in ctx.pick((1500, 6000), (1500, 6000, 50000))])
     ctx.exhaustive = True
     ctx.extra["exhaustive_bounds"] = "all ordered pairs of %d vocabulary tokens x {adjacent if allowed, blank, tab, newline}; all strings of length <= %d over %d characters" % (len(VOCAB), nmax, len(ALPHA))
 
 
 def replay(subcheck, case):
+    if case and case[0] == "longrun":
+        r = long_run_shard((case[1], case[2]))
+        if r.failures:
+            raise CheckFailure(**r.failures[0])
+        return
     if case[0] == "directive":
         r = directive_shard(0)
         bad = [f for f in r.failures if f["case"] == tuple(case) or list(f["case"]) == list(case)]
